@@ -87,6 +87,14 @@ var families = []family{
 	{"wfailr/any", wfailrLine, true, "S=ok R2=ok"},
 	{"wokq/any", "shared | beginW 2 ; access 2 0 ; put 2 0 7 ; commit 2 ; beginW 3 ; finish 2 ; access 3 0 ; put 3 0 8 ; commit 3 ; finish 3 ; beginR 4 ; access 4 0 ; read 4 0 7 ; read 4 0 8 ; read 4 0 2 ; leave 4 0 ; backfill 4 7 ; backfill 4 8 ; end 4 | R2=4", true, "R2=ok"},
 	{"wokq/mgr/any", "shared | beginW 2 ; access 2 0 ; put 2 0 7 ; commit 2 ; beginW 3 ; beginR 1 ; access 1 0 ; read 1 0 7 ; read 1 0 2 ; leave 1 0 ; backfill 1 7 ; end 1 ; finish 2 ; access 3 0 ; put 3 0 8 ; commit 3 ; finish 3 ; beginR 4 ; access 4 0 ; read 4 0 7 ; read 4 0 8 ; read 4 0 2 ; leave 4 0 ; backfill 4 7 ; backfill 4 8 ; end 4 | S=1 R2=4", true, "S=ok R2=ok"},
+	// Two write batches on one point, interleaved at every storage transaction boundary of the first (forced3.go).
+	// Not modelled: a batch is one transaction in the model (beginW … closeTx); judged against the two serial orders.
+	{"ww/delete+update", "", false, ""},
+	{"ww/delete+delete", "", false, ""},
+	{"ww/update+delete", "", false, ""},
+	{"ww/insert+insert", "", false, ""},
+	{"ww/delete+insertP", "", false, ""},
+	{"ww/any", "", false, ""},
 	{"w1and", "", false, ""},
 	{"w2c", "", false, ""},
 	{"dangling", "", false, ""},
@@ -104,7 +112,7 @@ const wfailqMgrLine = "shared | beginW 2 ; access 2 0 ; put 2 0 7 ; rollback 2 ;
 const wfailrLine = "shared | beginW 2 ; access 2 0 ; put 2 0 7 ; rollback 2 ; beginR 1 ; finish 2 ; cold 1 0 ; read 1 0 7 ; read 1 0 2 ; leave 1 0 ; end 1 ; beginR 4 ; access 4 0 ; read 4 0 7 ; read 4 0 2 ; leave 4 0 ; end 4 | S=1 R2=4"
 
 func cacheFamily(name string) bool {
-	return strings.HasPrefix(name, "coldrace/") || strings.HasPrefix(name, "wfailq/") || strings.HasPrefix(name, "wokq/") || strings.HasPrefix(name, "wfailr/")
+	return strings.HasPrefix(name, "coldrace/") || strings.HasPrefix(name, "wfailq/") || strings.HasPrefix(name, "wokq/") || strings.HasPrefix(name, "wfailr/") || strings.HasPrefix(name, "ww/")
 }
 
 type childOut struct {
